@@ -13,7 +13,16 @@ import c09
 class Lockstep:
     def __init__(self, cfg, S, hshelf, rng, mode="mixed"):
         self.cfg, self.S, self.rng, self.mode = cfg, S, rng, mode
-        c = S.const
+        # kinetic constants and vial volume are read from the configuration by the harness itself (defaults + named overrides)
+        import impl
+        ex = impl.expected_config(cfg.get("over"))
+        geo = ex["vial"]["geometry"]
+        c = dict(S.const)
+        want = dict(a=float(ex["kinetics"]["a"]), b=float(ex["kinetics"]["b"]), c=float(ex["kinetics"]["c"]),
+                    V=float(geo["height"]) * float(geo["length"]) * float(geo["width"]))
+        self.const_mismatch = {k: (S.const[k], v) for k, v in want.items() if not math.isclose(S.const[k], v, rel_tol=1e-12, abs_tol=0)}
+        c.update(want)
+        self.c = c
         self.N = S.N_vials_total
         self.G = c09.geometric(cfg["arr"], *cfg["shape"])
         self._hshelf = hshelf
@@ -29,6 +38,8 @@ class Lockstep:
         self.k = 0
         self.tn = np.full(self.N, np.nan); self.Tn = np.full(self.N, np.nan)
         self.problems = []
+        if self.const_mismatch:
+            self.problems.append(("constants-not-from-configuration", "the object's kinetic constants / volume differ from its configuration (defaults + overrides) {name: (object, configuration)}: %r" % self.const_mismatch))
         self.samples = []          # (xi, Tstar, P) actually used, for the interval certificates
         # trigger step of controlled nucleation (C10): first grid step at or after the last 1 s sample >= cnTemp
         self.k_cn = None
@@ -61,7 +72,7 @@ class Lockstep:
 
     def script(self, call, m):
         self.advance_solid_only()
-        S, c = self.S, self.S.const
+        S, c = self.S, self.c
         if self.k >= self.n:
             self.problems.append(("extra-draw", "generator asked for draws after the last step"))
             return np.zeros(m)
